@@ -197,6 +197,13 @@ func Load() (*Loaded, error) {
 				L.Engine.Recursive[fn] = true
 			}
 		}
+		for key := range pc.Prefix {
+			fn, err := findFunc(prog, sp, "", key)
+			if err != nil {
+				return nil, fmt.Errorf("%s: prefix %s: %v", pp, key, err)
+			}
+			L.Engine.Prefix[fn] = true
+		}
 		for key := range pc.PureFields {
 			L.Engine.PureFields[pc.PkgPath+"."+key] = true
 		}
